@@ -461,6 +461,11 @@ pub type ShrinkFn<'a> = &'a dyn Fn(&Value) -> Vec<Value>;
 pub fn minimise(v: &Violation, replay: ReplayFn, shrink: ShrinkFn, budget: usize) -> Violation {
     let mut best = v.clone();
     let mut spent = 0usize;
+    // minimisation is a convenience: it also ends after a while of wall time (scenarios that
+    // take a minute each would otherwise hold the verdict back for an hour). How far it got
+    // does not affect the verdict; the file that is written is confirmed in a fresh process.
+    let t0 = Instant::now();
+    let wall_limit = std::env::var("VERIF_MINIMISE_SECS").ok().and_then(|x| x.parse::<u64>().ok()).unwrap_or(120);
     // candidates already tried (a shrinker may propose the scenario itself, e.g. "the
     // second half" of a one-element list: accepting that would spend the budget in place)
     let mut seen: std::collections::HashSet<String> = std::collections::HashSet::new();
@@ -468,7 +473,7 @@ pub fn minimise(v: &Violation, replay: ReplayFn, shrink: ShrinkFn, budget: usize
     loop {
         let mut improved = false;
         for cand in shrink(&best.scenario) {
-            if spent >= budget {
+            if spent >= budget || t0.elapsed().as_secs() > wall_limit {
                 return best;
             }
             if !seen.insert(cand.to_string()) {
